@@ -58,15 +58,15 @@ func Boot(ctx context.Context, ledgers []LedgerSpec) (*pgsim.DB, error) {
 
 // StepInfo is handed to the oracle after the last operation of a path.
 type StepInfo struct {
-	Path    []Op
-	Last    Op
-	Out     Outcome
-	W       *world.World
-	Ctrl    ledgercontroller.Controller // controller of Last.Ledger (or the first ledger)
-	Ref     *Ref                        // reference of that ledger after the step
-	RefPrev *Ref                        // reference before the step
-	Refs    map[string]*Ref
-	Ctrls   map[string]ledgercontroller.Controller // every ledger's live controller
+	Path           []Op
+	Last           Op
+	Out            Outcome
+	W              *world.World
+	Ctrl           ledgercontroller.Controller // controller of Last.Ledger (or the first ledger)
+	Ref            *Ref                        // reference of that ledger after the step
+	RefPrev        *Ref                        // reference before the step
+	Refs           map[string]*Ref
+	Ctrls          map[string]ledgercontroller.Controller // every ledger's live controller
 	DumpPrev, Dump string
 }
 
@@ -82,6 +82,10 @@ type SeqExplorer struct {
 	// Restart re-evaluates Check on a freshly attached world (no Go-side caches).
 	Restart bool
 	Workers int
+	// OnlyDepth > 0: enumerate only the sequences of exactly that length (Depth must equal it):
+	// lets a caller with several configurations go depth-major, so that a time cut loses depth,
+	// never a whole configuration.
+	OnlyDepth int
 }
 
 type SeqStats struct {
@@ -129,7 +133,11 @@ func (e *SeqExplorer) Run(ctx context.Context, r *ev.Run) (*SeqStats, error) {
 		workers = runtime.NumCPU()
 	}
 	A := len(e.Alphabet)
-	for d := 1; d <= e.Depth; d++ {
+	from := 1
+	if e.OnlyDepth > 0 {
+		from = e.OnlyDepth
+	}
+	for d := from; d <= e.Depth; d++ {
 		total := 1
 		for i := 0; i < d; i++ {
 			total *= A
